@@ -121,7 +121,10 @@ impl Run<'_> {
         for (k, n) in crate::exec::take_probes() {
             self.stats.add(&format!("probe.{k}"), n);
         }
-        self.stats.distinct.insert(case_hash(&case, ev.outcome));
+        let ch = case_hash(&case, ev.outcome);
+        self.stats.note(ch);
+        self.stats.note(ev.meter.ticks);
+        self.stats.distinct.insert(ch);
         self.stats.tuples.insert(format!("{}|{}|{}|{}", case.read_as, case.fault_kind, case.clause, ev.outcome));
         if self.stats.samples.len() < 5 && case.input.len() < 100 && case.fault.contains("->") {
             let mut j = case.to_json();
